@@ -4,6 +4,7 @@ import (
 	"fmt"
 	"go/token"
 	"go/types"
+	"sort"
 	"strings"
 
 	"golang.org/x/tools/go/ssa"
@@ -31,8 +32,19 @@ func (P *Prog) factoryCalls(fn *ssa.Function) []*ssa.Call {
 	return out
 }
 
+// hasFactoryPath: some decision path of fn (helpers inlined) calls a provider factory taken from ctx.Data.
+func (P *Prog) hasFactoryPath(fn *ssa.Function) bool {
+	paths, _ := P.nodePaths(fn)
+	for _, p := range paths {
+		if p.has("CALL-FACTORY", "") {
+			return true
+		}
+	}
+	return false
+}
+
 func checkC14(P *Prog, r *Result) {
-	R := P.roles
+	_ = P.roles
 	r.Explanation = "Decides the structural part of front-end equivalence: (getbyfield-agreement) all DataProvider implementations resolve a field the same way — key := GetKeyFromField(field, fallback, own tag); " +
 		"return own Get(key), key — the empty provider returning (nil, fallback); (factory-once) a decoding factory taken from ctx.Data is consumed once per execution: after it has been called, " +
 		"every child dispatched receives a context whose Data was overwritten with a value derived after the call, never the factory again; (factory-twins) both places that accept a factory " +
@@ -46,91 +58,64 @@ func checkC14(P *Prog, r *Result) {
 	// documented string rows of the coercers
 	P.checkCoercionTable(r, "C14/string-leaf-coercion")
 
-	// ---- factory-once ----
-	ca := P.newCatchAnalysis()
-	nFac := 0
+	// ---- factory-once (on the decision paths, helpers inlined) ----
 	for _, fn := range P.nodeFuncs() {
-		fcs := P.factoryCalls(fn)
+		paths, capHit := P.nodePaths(fn)
+		var fcs []ssa.Instruction
+		seenFc := map[ssa.Instruction]bool{}
+		for _, p := range paths {
+			for _, it := range p.items {
+				if it.kind == "CALL-FACTORY" && !seenFc[it.in] {
+					seenFc[it.in] = true
+					fcs = append(fcs, it.in)
+				}
+			}
+		}
 		if len(fcs) == 0 {
 			continue
 		}
+		sort.Slice(fcs, func(i, j int) bool { return fcs[i].Pos() < fcs[j].Pos() })
 		r.sawFunc(fname(fn))
 		for i, fc := range fcs {
-			nFac++
 			c := fmt.Sprintf("%s#factory@%d", fname(fn), i+1)
+			if capHit {
+				r.undecided("C14/factory-once", c, P.ipos(fc), "too many paths to enumerate")
+				continue
+			}
 			var problems []string
-			// every dispatch reachable after the factory call
-			after := reachFromSuccs(fc.Block(), nil)
-			eachInstr(fn, func(b *ssa.BasicBlock, idx int, in ssa.Instruction) {
-				ci := callOf(in)
-				if _, isD := ca.dispatchCallee(ci); !isD || ci.invoke == nil {
-					return
-				}
-				if !(after[b] || (b == fc.Block() && idx > instrIndex(fc))) {
-					return
-				}
-				// the ctx argument
-				var ctxv ssa.Value
-				for _, a := range ci.args() {
-					if av := cvi(a); ca.isCtxVal(av) {
-						ctxv = av
+			for _, p := range paths {
+				at := -1
+				for k, it := range p.items {
+					if it.kind == "CALL-FACTORY" && it.in == fc {
+						at = k
 					}
 				}
-				if ctxv == nil {
-					return
+				if at < 0 {
+					continue
 				}
-				// every path from the factory call to this dispatch must pass a store to ctxv.Data
-				// of a value that is not the original Data
-				okStore := false
-				S := map[*ssa.BasicBlock]bool{}
-				sameBlockAfter := false
-				eachInstr(fn, func(b2 *ssa.BasicBlock, i2 int, in2 ssa.Instruction) {
-					st, ok := in2.(*ssa.Store)
-					if !ok {
-						return
-					}
-					base, f := fieldVar(st.Addr)
-					if f == nil || !sameField(f, R.FData) || cv(base) != ctxv {
-						return
-					}
-					if _, vf := loadOfField(cvi(st.Val)); vf != nil && sameField(vf, R.FData) {
-						return
-					}
-					if b2 == fc.Block() {
-						if i2 > instrIndex(fc) {
-							sameBlockAfter = true
+				// contexts whose Data was given a value derived after the factory call
+				fresh := map[ssa.Value]bool{}
+				for _, it := range p.items[at+1:] {
+					switch it.kind {
+					case "CTX-DATA", "NEWCTX":
+						if it.aux != nil {
+							fresh[it.aux] = it.val == "fresh"
 						}
-						return
-					}
-					if b2 == b && i2 > idx {
-						return // after the dispatch
-					}
-					S[b2] = true
-				})
-				if sameBlockAfter {
-					okStore = true
-				} else if b != fc.Block() {
-					okStore = !reachFromSuccs(fc.Block(), S)[b] || S[b]
-				}
-				// or the ctx was created after the factory call with non-factory data
-				if c2, ok := ctxv.(*ssa.Call); ok && instrBefore(fc, c2) {
-					okStore = true
-					for _, a := range c2.Call.Args {
-						if _, vf := loadOfField(cvi(a)); vf != nil && sameField(vf, R.FData) {
-							okStore = false
+					case "CHILD":
+						if it.aux != nil && !fresh[it.aux] {
+							problems = append(problems, fmt.Sprintf("the child dispatched at %s receives a context whose Data can still be the already-consumed factory: the body would be decoded a second time (EOF / invalid_json)", P.ipos(it.in)))
 						}
 					}
 				}
-				if !okStore {
-					problems = append(problems, fmt.Sprintf("the child dispatched at %s receives a context whose Data can still be the already-consumed factory: the body would be decoded a second time (EOF / invalid_json)", P.ipos(in)))
-				}
-			})
+			}
 			// the factory's result must be used
 			used := false
-			if refs := fc.Referrers(); refs != nil {
-				for _, rf := range *refs {
-					if ex, ok := rf.(*ssa.Extract); ok && ex.Index == 0 && ex.Referrers() != nil && len(*ex.Referrers()) > 0 {
-						used = true
+			if fcv, ok := fc.(*ssa.Call); ok {
+				if refs := fcv.Referrers(); refs != nil {
+					for _, rf := range *refs {
+						if ex, ok := rf.(*ssa.Extract); ok && ex.Index == 0 && ex.Referrers() != nil && len(*ex.Referrers()) > 0 {
+							used = true
+						}
 					}
 				}
 			}
@@ -149,7 +134,7 @@ func checkC14(P *Prog, r *Result) {
 	// ---- factory-twins ----
 	sig := map[string]string{}
 	for _, fn := range P.nodeFuncs() {
-		if len(P.factoryCalls(fn)) == 0 {
+		if !P.hasFactoryPath(fn) {
 			continue
 		}
 		paths, _ := P.nodePaths(fn)
@@ -390,7 +375,7 @@ func (P *Prog) checkDecodeFailure(r *Result) {
 	}
 	// pipelines: factory error -> exactly one issue, no child, no destination write
 	for _, fn := range P.nodeFuncs() {
-		if len(P.factoryCalls(fn)) == 0 {
+		if !P.hasFactoryPath(fn) {
 			continue
 		}
 		r.sawFunc(fname(fn))
@@ -482,6 +467,7 @@ func (P *Prog) checkProviderNonNil(r *Result, rule string) {
 			bad := false
 			var walk func(v ssa.Value, d int)
 			seen := map[ssa.Value]bool{}
+			resIdx := map[ssa.Value]int{}
 			walk = func(v ssa.Value, d int) {
 				if v == nil || seen[v] || d > 8 {
 					return
@@ -503,6 +489,7 @@ func (P *Prog) checkProviderNonNil(r *Result, rule string) {
 						}
 					}
 				case *ssa.Extract:
+					resIdx[x.Tuple] = x.Index
 					walk(x.Tuple, d+1)
 				case *ssa.Const:
 					if x.Value == nil {
@@ -517,6 +504,33 @@ func (P *Prog) checkProviderNonNil(r *Result, rule string) {
 						if pos, isNil := P.mayReturnNilProvider(cc.static, nilReturners, map[*ssa.Function]bool{}); isNil {
 							bad = true
 							sources = append(sources, "  which can return a nil provider without an error at "+pos)
+						}
+						// a module helper: the values it returns on its non-failing returns (merges,
+						// locals; direct calls and nil constants were decided just above)
+						if cc.static.Blocks != nil && inModule(funcPkgPath(cc.static)) {
+							idx := resIdx[v]
+							eachInstr(cc.static, func(_ *ssa.BasicBlock, _ int, in2 ssa.Instruction) {
+								rt, ok := in2.(*ssa.Return)
+								if !ok || idx >= len(rt.Results) {
+									return
+								}
+								rvs, okRV := retVals(rt)
+								if !okRV {
+									return
+								}
+								for j, rv := range rvs {
+									if j == idx {
+										continue
+									}
+									if b2, isB := constBool(rv); isB && !b2 {
+										return // (nil, false): the failure protocol, tested by the caller
+									}
+								}
+								switch cv(rvs[idx]).(type) {
+								case *ssa.Phi, *ssa.UnOp, *ssa.Extract, *ssa.MakeInterface:
+									walk(cv(rvs[idx]), d+1)
+								}
+							})
 						}
 					case cc.dynamic:
 						// a factory: any module closure of that signature
